@@ -164,11 +164,23 @@ def parseStream (s : String) : Option (String × List Bytes × List (Nat × Nat 
     | _, _ => none
   | _ => none
 
-def runOps (impl : FileImpl FileNode Ptr Store) : CFS → List Op → List String → List String
+/-- `hold`/`release` (delay / complete the Keep writes of background flushes) are not operations of
+the filesystem: by `C08_flush_invisible*` the time at which a flush lands changes no result. In a
+case that contains `hold` the Go driver prints no segment shapes (they depend on when the flushes
+land) and this driver does the same; the abstract results must still be identical. -/
+inductive DOp
+  | op (o : Op)
+  | noop
+
+def parseDOp (s : String) : Option DOp :=
+  if s == "hold" || s == "release" then some DOp.noop else (parseOp s).map DOp.op
+
+def runOps (impl : FileImpl FileNode Ptr Store) (shapes : Bool) : CFS → List DOp → List String → List String
   | _, [], acc => acc.reverse
-  | s, op :: ops, acc =>
+  | s, DOp.noop :: ops, acc => runOps impl shapes s ops ("ok" :: acc)
+  | s, DOp.op op :: ops, acc =>
     let (s', r) := step impl s op
-    runOps impl s' ops ((resStr r ++ shapeAfter s' op r) :: acc)
+    runOps impl shapes s' ops ((resStr r ++ (if shapes then shapeAfter s' op r else "")) :: acc)
 
 def stepLine (line : String) : String :=
   match fields line with
@@ -178,14 +190,15 @@ def stepLine (line : String) : String :=
     | some 0 => "bad-op"
     | some max =>
       let streams := if man == "-" then some [] else (man.splitOn "|").mapM parseStream
-      let ops := if ops == "-" then some [] else (ops.splitOn ";").mapM parseOp
+      let async := ops != "-" && (ops.splitOn ";").contains "hold"
+      let ops := if ops == "-" then some [] else (ops.splitOn ";").mapM parseDOp
       match streams, ops with
       | some streams, some ops =>
         (match loadManifest md5Loc streams with
          | none => "load=err"
          | some s0 =>
-           let outs := runOps (concImpl md5Loc max) s0 ops []
-           ";".intercalate (("load=ok#" ++ allShapes s0) :: outs))
+           let outs := runOps (concImpl md5Loc max) (!async) s0 ops []
+           ";".intercalate ((if async then "load=ok" else "load=ok#" ++ allShapes s0) :: outs))
       | _, _ => "bad-op"
   | _ => "bad-op"
 
